@@ -68,7 +68,7 @@ class LinearOperator(Function):
 
         # Define an adjunct operator with no class constraint
         # Its list of points is what is important
-        self.T = Function(is_leaf=True)
+        self.T = Function(is_leaf=True, reuse_gradient=True)
         self.T.counter = None
         Function.counter -= 1
 
